@@ -82,10 +82,11 @@ func ruleC11Same(r *Run) {
 				map[bool]string{true: "lookup path normalised by formatPath (" + why + ")", false: "the matcher receives a path that did not pass through the normaliser: " + why}[ok])
 		}
 	}
-	// writer side: route.path after appendGroupInfo
-	agi := w.Fn("rux", "Router.appendGroupInfo")
+	// writer side: route.path after the registration step that applies the group (appendGroupInfo, or
+	// appendRoute itself when that step is written in line)
+	agi, gates := pathStep(w, tm)
 	stores := storesToField(agi, tm.path)
-	r.Check(rule, "(*Router).appendGroupInfo:stores path", agi.Pos(), len(stores) >= 1, fmt.Sprintf("%d store(s) to route.path", len(stores)))
+	r.Check(rule, "(*Router).appendGroupInfo:stores path", agi.Pos(), len(stores) >= 1, fmt.Sprintf("%d store(s) to route.path in %s", len(stores), FuncName(agi)))
 	for i, st := range stores {
 		ok, why := isFormatted(w, st.Val, 0)
 		all, _ := allPathsHit(agi, nil, func(in ssa.Instruction) bool { return in == ssa.Instruction(st) })
@@ -113,13 +114,12 @@ func ruleC11Same(r *Run) {
 	r.Check(rule, "(*Router).appendGroupInfo:prefix then normalise", agi.Pos(), okPref, map[bool]string{true: "formatPath(prefix + path): the concatenation is normalised as a whole", false: "the group prefix is not concatenated before the final normalisation"}[okPref])
 	// appendGroupInfo runs before the route becomes visible in any table
 	ar := tm.appendRoute
-	calls := callsToFn(ar, agi)
 	for _, tu := range tm.tierUpdates() {
 		if tu.f != ar {
 			continue
 		}
 		ok := false
-		for _, c := range calls {
+		for _, c := range gates {
 			if dominates(c, tu.mu) {
 				ok = true
 			}
@@ -330,7 +330,10 @@ func ruleC13Total(r *Run) {
 	// who-may-push: only *cacheNode values enter the recency list
 	cm := newCacheModel(w)
 	for _, f := range w.Funcs {
-		for i, c := range callsIn(f, func(c ssa.CallInstruction) bool { op := listOp(c); return op == "PushFront" || op == "PushBack" || op == "InsertBefore" || op == "InsertAfter" }) {
+		for i, c := range callsIn(f, func(c ssa.CallInstruction) bool {
+			op := listOp(c)
+			return op == "PushFront" || op == "PushBack" || op == "InsertBefore" || op == "InsertAfter"
+		}) {
 			arg := c.Common().Args[1]
 			ok := false
 			if mi, isMI := arg.(*ssa.MakeInterface); isMI && isNamedPtr(mi.X.Type(), cm.nodeT) {
@@ -364,7 +367,7 @@ func ruleC13Gate(r *Run) {
 	tm := newTierModel(w)
 	ar := tm.appendRoute
 	goodInfo := w.Fn("rux", "Route.goodInfo")
-	agi := w.Fn("rux", "Router.appendGroupInfo")
+	_, agiGates := pathStep(w, tm)
 	namedF := w.Field("rux", "Router", "namedRoutes")
 	counterF := w.Field("rux", "Router", "counter")
 	// (1) validation dominates visibility
@@ -379,15 +382,25 @@ func ruleC13Gate(r *Run) {
 	})
 	r.Exists(rule, "(*Router).appendRoute:table inserts", ar.Pos(), len(visible) >= 4, fmt.Sprintf("%d inserts into route tables (3 tiers + name index)", len(visible)))
 	for i, v := range visible {
-		for _, gate := range []*ssa.Function{goodInfo, agi} {
+		for gi, gname := range []string{"goodInfo", "appendGroupInfo"} {
 			ok := false
-			for _, c := range callsToFn(ar, gate) {
-				if dominates(c, v) && len(c.Common().Args) > 0 {
+			var gs []ssa.Instruction
+			if gi == 0 {
+				for _, c := range callsToFn(ar, goodInfo) {
+					if len(c.Common().Args) > 0 {
+						gs = append(gs, c)
+					}
+				}
+			} else {
+				gs = agiGates
+			}
+			for _, c := range gs {
+				if dominates(c, v) {
 					ok = true
 				}
 			}
-			r.Check(rule, fmt.Sprintf("(*Router).appendRoute:%s before insert#%d", gate.Name(), i+1), w.InstrPos(v), ok,
-				map[bool]string{true: gate.Name() + " runs before the route becomes visible", false: "the route is inserted into a table before " + gate.Name() + " validated it"}[ok])
+			r.Check(rule, fmt.Sprintf("(*Router).appendRoute:%s before insert#%d", gname, i+1), w.InstrPos(v), ok,
+				map[bool]string{true: gname + " runs before the route becomes visible", false: "the route is inserted into a table before " + gname + " validated it"}[ok])
 		}
 		// dynamic tiers: the pattern is parsed/compiled first
 		if mu := v.(*ssa.MapUpdate); unwrapAddr(mu.Map).lastField() == tm.regular || unwrapAddr(mu.Map).lastField() == tm.irreg {
@@ -447,7 +460,10 @@ func ruleC13Gate(r *Run) {
 	// (3) patterns: every variable regex checked (C02-ALIGN), optional parts checked, compiled with MustCompile
 	cpo := w.Fn("rux", "checkAndParseOptional")
 	pf := tm.parse
-	for i, c := range callsIn(pf, func(c ssa.CallInstruction) bool { n := calleeName(c); return n == "regexp.MustCompile" || n == "regexp.Compile" }) {
+	for i, c := range callsIn(pf, func(c ssa.CallInstruction) bool {
+		n := calleeName(c)
+		return n == "regexp.MustCompile" || n == "regexp.Compile"
+	}) {
 		must := calleeName(c) == "regexp.MustCompile"
 		r.Check(rule, fmt.Sprintf("(*Router).parseParamRoute:compile#%d panics on error", i+1), w.InstrPos(c), must, map[bool]string{true: "MustCompile: an uncompilable pattern panics at registration", false: "compile error is not turned into a registration panic"}[must])
 		// the compiled text passed through checkAndParseOptional whenever it contains '['
@@ -506,18 +522,20 @@ func ruleC13Gate(r *Run) {
 		}
 		r.Check(rule, fmt.Sprintf("(*Router).WithOptions:frozen#%d", i+1), w.InstrPos(oc), ok && okPanic, map[bool]string{true: "options are applied only while no route is registered; otherwise WithOptions panics", false: "options can still be applied after routes exist (or the guard does not panic)"}[ok && okPanic])
 	}
-	// every tier insert counts the route (same block)
+	// every tier insert counts the route: an increment runs before the insert in the same loop iteration
 	for _, tu := range tm.tierUpdates() {
 		ok := false
-		for _, in := range tu.mu.Block().Instrs {
+		eachInstr(tu.f, func(in ssa.Instruction) {
 			if st, isSt := in.(*ssa.Store); isSt {
 				if fa, isFA := st.Addr.(*ssa.FieldAddr); isFA && fieldVar(fa.X.Type(), fa.Field) == counterF {
 					if b, isB := st.Val.(*ssa.BinOp); isB && b.Op == token.ADD && isLoadOfField(b.X, counterF) {
-						ok = true
+						if c, okc := constInt(b.Y); okc && c >= 1 && (pairedPerExecution(in, tu.mu) || in.Block() == tu.mu.Block()) {
+							ok = true
+						}
 					}
 				}
 			}
-		}
+		})
 		r.Check(rule, fmt.Sprintf("%s:%s insert#%d counted", FuncName(tu.f), tm.tierName(tu.fv), tu.ord), w.InstrPos(tu.mu), ok, map[bool]string{true: "the insert increments the route counter that freezes the options", false: "a route is inserted without incrementing the counter: options stay changeable although routes exist"}[ok])
 	}
 }
@@ -709,7 +727,7 @@ func calleesOf(w *World, f *ssa.Function) []*ssa.Function {
 func init() {
 	register(&property{
 		Meta: propertyMeta{
-			ID: "C11",
+			ID:          "C11",
 			Explanation: "(C11-SAME) provenance: on the writer side route.path is stored, on every path and before the route is inserted anywhere, as the result of (*Router).formatPath on the router itself applied to prefix + path as a whole, and the group prefix only grows by formatPath results (C12-EXTEND); on the reader side every path argument of the matcher is a formatPath result of the same function on the same router (through parameters of unexported functions whose every call site passes one) — so both sides see the same strictLastSlash bit. (C11-TOTAL) E-IDX proves every index and slice expression of formatPath, simpleFmtPath, match, QuickMatch and findAllowedMethods in bounds from dominating guards, including formatPath's post-condition 'non-empty and starts with /' that discharges path[1:] and path[1:pos+1] in match via a pre-condition checked at every call site. (C11-ENC) the dispatcher feeds Req.URL.Path, or Req.URL.EscapedPath() exactly when UseEncodedPath is set.",
 			NotDecided:  []string{"which strings normalise to the same key; idempotence of formatPath (string-valued run-time facts)"},
 			Assumptions: []string{"strings.IndexByte returns -1 or an index < len (library contract)"},
@@ -718,11 +736,29 @@ func init() {
 	})
 	register(&property{
 		Meta: propertyMeta{
-			ID: "C13",
+			ID:          "C13",
 			Explanation: "(C13-GATE) must-pass-through at registration: goodInfo (nil handler, empty methods, unknown method -> panic), appendGroupInfo (handler limit) and, for dynamic routes, parseParamRoute (goodRegexString per variable, checkAndParseOptional before compiling, MustCompile, group-count check) dominate every insert into a route table or the name index; only fixed paths enter the static table; WithOptions applies options only under counter <= 0 and panics otherwise, and every tier insert increments the counter. (C13-MEMBER) method names are validated by exact comparison with anyMethods, never by substring search in the joined list. (C13-TOTAL) E-IDX over the lookup core (everything reachable from ServeHTTP/HandleContext/Match/QuickMatch, the default 404/405 handlers and the chain executor): every index/slice, unchecked type assertion, explicit panic, nil-able function-field call and field-map write is proved safe from dominating facts, proved post-conditions, call-site-checked pre-conditions, the registration invariant of C02-GROUPS, or a named entry of the frozen trusted table. (C05-LIMIT on Route.handlers, C07-GUARD, C02-GROUPS, PHASE) reused.",
 			NotDecided:  []string{"that every invalid pattern is recognised as invalid (regex metacharacters in literals, unbalanced braces that happen to compile)", "panics inside regexp, net/http, user handlers", "nil middleware values in a chain (dispatch, not matching)"},
 			Assumptions: []string{"the trusted discharges listed in idx.go (library contracts and the handler boundary)"},
 		},
 		Rules: []ruleFn{{"C13-GATE", ruleC13Gate}, {"C13-MEMBER", ruleC13Member}, {"C13-TOTAL", ruleC13Total}, {"C02-GROUPS", ruleC02Groups}, {"C07-GUARD", ruleC07Guard}, {"C05-LIMIT", ruleC05LimitRoute}, {"PHASE", rulePhase("PHASE")}},
 	})
+}
+
+// pathStep: the registration step that rewrites route.path (group prefix + normalisation). It is
+// appendGroupInfo when that function exists; when the step is written in line, it is appendRoute
+// itself. gates are the instructions of appendRoute that perform it (the calls, or the stores).
+func pathStep(w *World, tm *tierModel) (*ssa.Function, []ssa.Instruction) {
+	ar := tm.appendRoute
+	var gates []ssa.Instruction
+	if agi := w.FnOpt("rux", "Router.appendGroupInfo"); agi != nil {
+		for _, c := range callsToFn(ar, agi) {
+			gates = append(gates, c)
+		}
+		return agi, gates
+	}
+	for _, st := range storesToField(ar, tm.path) {
+		gates = append(gates, st)
+	}
+	return ar, gates
 }
